@@ -310,3 +310,219 @@ func checkDirAsMap(c *mon.Case, prop string, node ipld.Node, model map[string]ci
 		}
 	})
 }
+
+// runDirHistory drives a random history of read-only operations on ONE directory node - lengths,
+// member and non-member lookups through all entry points, several iterators that are created,
+// advanced a few steps at a time, polled with Done, interleaved with each other and sometimes
+// abandoned - and checks every answer against the Go map. Whatever happened before, every operation
+// answers as it does on a fresh node.
+func runDirHistory(c *mon.Case, prop string, node ipld.Node, model map[string]cid.Cid, padLens []int, steps int) {
+	r := c.Rand()
+	names := make([]string, 0, len(model))
+	for n := range model {
+		names = append(names, n)
+	}
+	sort.Strings(names)
+	type nativeIter interface {
+		Next() (dagpb.String, dagpb.Link)
+		Done() bool
+	}
+	type itState struct {
+		m    ipld.MapIterator
+		n    nativeIter
+		seen map[string]bool
+		born int
+	}
+	var its []*itState
+	var trace []string
+	fail := func(key, format string, args ...any) {
+		t := trace
+		if len(t) > 20 {
+			t = t[len(t)-20:]
+		}
+		c.Violation(prop+"|history|"+key, "%s; history tail: %s", fmt.Sprintf(format, args...), strings.Join(t, " ; "))
+	}
+	advance := func(it *itState, k int) bool {
+		for i := 0; i < k; i++ {
+			var done bool
+			if it.m != nil {
+				done = it.m.Done()
+			} else {
+				done = it.n.Done()
+			}
+			if done {
+				if len(it.seen) != len(model) {
+					fail("iter-short", "an iterator created at step %d is done after %d of %d entries", it.born, len(it.seen), len(model))
+					return false
+				}
+				return true
+			}
+			var ks string
+			var got cid.Cid
+			if it.m != nil {
+				k, v, err := it.m.Next()
+				if err != nil {
+					fail("iter-error", "iterator created at step %d: Next after %d entries: %v", it.born, len(it.seen), err)
+					return false
+				}
+				ks, _ = k.AsString()
+				got, _ = asCid(v)
+			} else {
+				k, v := it.n.Next()
+				if k == nil || v == nil {
+					fail("iter-error", "native iterator created at step %d returned nil after %d entries although not done", it.born, len(it.seen))
+					return false
+				}
+				ks, got = k.String(), linkCid(v.Link())
+			}
+			want, ok := model[ks]
+			if !ok || !got.Equals(want) {
+				fail("iter-wrong", "iterator created at step %d yielded %q -> %v, model has %v (present %v)", it.born, ks, got, want, ok)
+				return false
+			}
+			if it.seen[ks] {
+				fail("iter-twice", "iterator created at step %d yielded %q twice", it.born, ks)
+				return false
+			}
+			it.seen[ks] = true
+			c.Count("history_entries_iterated", 1)
+		}
+		return true
+	}
+	ok := true
+	for s := 0; s < steps && ok; s++ {
+		c.Count("history_steps", 1)
+		switch op := r.Intn(12); {
+		case op == 0:
+			trace = append(trace, "Length")
+			c.Guard("Length", func() {
+				if l := node.Length(); l != int64(len(model)) {
+					fail("length", "Length() = %d at step %d, the directory has %d entries", l, s, len(model))
+					ok = false
+				}
+			})
+		case op <= 3 && len(names) > 0:
+			name := names[r.Intn(len(names))]
+			ep := r.Intn(5)
+			trace = append(trace, fmt.Sprintf("lookup%d(%q)", ep, name))
+			c.Guard("lookup member", func() {
+				var v ipld.Node
+				var err error
+				switch ep {
+				case 0:
+					v, err = node.LookupByString(name)
+				case 1:
+					v, err = node.LookupBySegment(datamodel.PathSegmentOfString(name))
+				case 2:
+					v, err = node.LookupByNode(basicnode.NewString(name))
+				case 3:
+					v, err = node.LookupByNode(pbString(name))
+				default:
+					if nl, isN := node.(interface{ Lookup(dagpb.String) dagpb.Link }); isN {
+						if l := nl.Lookup(pbString(name)); l == nil {
+							err = fmt.Errorf("native Lookup returned nil")
+						} else {
+							v = l
+						}
+					} else {
+						v, err = node.LookupByString(name)
+					}
+				}
+				if err != nil {
+					fail("member", "lookup (entry point %d) of member %q at step %d failed: %v", ep, name, s, err)
+					ok = false
+					return
+				}
+				if got, e := asCid(v); e != nil || !got.Equals(model[name]) {
+					fail("member", "lookup (entry point %d) of member %q at step %d returned %v (%v), want %v", ep, name, s, got, e, model[name])
+					ok = false
+				}
+			})
+		case op <= 5:
+			p := fmt.Sprintf("absent-%x", r.Uint32())
+			if len(names) > 0 && r.Intn(2) == 0 {
+				ps := probesFor(names[r.Intn(len(names))], padLens)
+				p = ps[r.Intn(len(ps))]
+			}
+			if _, isMember := model[p]; isMember {
+				continue
+			}
+			ep := r.Intn(4)
+			trace = append(trace, fmt.Sprintf("lookup%d(non-member %q)", ep, p))
+			c.Guard("lookup non-member", func() {
+				var err error
+				switch ep {
+				case 0:
+					_, err = node.LookupByString(p)
+				case 1:
+					_, err = node.LookupBySegment(datamodel.PathSegmentOfString(p))
+				case 2:
+					_, err = node.LookupByNode(basicnode.NewString(p))
+				default:
+					_, err = node.LookupByNode(pbString(p))
+				}
+				if err == nil || !isNotFound(err) {
+					fail("nonmember", "lookup (entry point %d) of non-member %q at step %d returned err=%v, want not-found", ep, p, s, err)
+					ok = false
+				}
+			})
+		case op == 6 && len(its) < 4:
+			it := &itState{seen: map[string]bool{}, born: s}
+			c.Guard("new iterator", func() {
+				if d, isN := node.(interface{ Iterator() *iterT }); isN && r.Intn(3) == 0 {
+					it.n = d.Iterator()
+				} else {
+					it.m = node.MapIterator()
+				}
+			})
+			if it.m == nil && it.n == nil {
+				fail("nil-iterator", "no iterator at step %d", s)
+				return
+			}
+			trace = append(trace, fmt.Sprintf("newIter#%d(native=%v)", s, it.n != nil))
+			its = append(its, it)
+			c.Count("history_iterators", 1)
+		case op <= 9 && len(its) > 0:
+			it := its[r.Intn(len(its))]
+			k := 1 + r.Intn(6)
+			if r.Intn(6) == 0 {
+				k = len(model) + 2
+			}
+			trace = append(trace, fmt.Sprintf("iter#%d.advance(%d)", it.born, k))
+			c.Guard("advance iterator", func() { ok = advance(it, k) })
+		case op == 10 && len(its) > 0:
+			// poll Done a few times: asking is not advancing
+			it := its[r.Intn(len(its))]
+			trace = append(trace, fmt.Sprintf("iter#%d.Done()x3", it.born))
+			c.Guard("poll Done", func() {
+				for i := 0; i < 3; i++ {
+					var d bool
+					if it.m != nil {
+						d = it.m.Done()
+					} else {
+						d = it.n.Done()
+					}
+					if d != (len(it.seen) == len(model)) {
+						fail("done", "iterator created at step %d reports Done()=%v after %d of %d entries", it.born, d, len(it.seen), len(model))
+						ok = false
+						return
+					}
+				}
+			})
+		case op == 11 && len(its) > 1:
+			i := r.Intn(len(its))
+			trace = append(trace, fmt.Sprintf("iter#%d.abandon", its[i].born))
+			its = append(its[:i], its[i+1:]...)
+			c.Count("history_iterators_abandoned", 1)
+		}
+	}
+	// every iterator still alive is run to its end
+	for _, it := range its {
+		if !ok {
+			break
+		}
+		trace = append(trace, fmt.Sprintf("iter#%d.finish", it.born))
+		c.Guard("finish iterator", func() { ok = advance(it, len(model)+2) })
+	}
+	c.Count("histories", 1)
+}
